@@ -30,7 +30,7 @@ ARG_SHAPES = [
     ("bool", BOOL(True)), ("bool", BOOL(False)), ("bool", V("b")),
     ("str", S("s")), ("str", S("with space")), ("str", V("s")),
     # strings that look like other literals / names
-    ("str", S("caf\u00e9 \u03c0/2")), ("str", S("a\\b\\n")), ("str", S("a#b")), ("str", S("True")), ("str", S("1.5")), ("str", S("n")), ("str", S("x=1, y")), ("str", S("a\x0bb\x0cc\x1dd\x85e\u2028f\u2029g")),
+    ("str", S("caf\u00e9 \u03c0/2")), ("str", S("a\\b\\n")), ("str", S("a#b")), ("str", S("True")), ("str", S("1.5")), ("str", S("n")), ("str", S("x=1, y")), ("str", S("two  blanks,    four, tab\tinside")), ("str", S("a\x0bb\x0cc\x1dd\x85e\u2028f\u2029g")),
     ("array", V("A")), ("array", V("B")), ("array", V("U")), ("array-1x1", V("W")), ("array-1x1", IDX("W", N("0"))), ("array-p-name", V("p1")), ("array-p-name", IDX("p1", N("1"))), ("array-with-parameters", V("T")), ("array-with-parameters", IDX("T", N("3"))),
     ("param", P("a")), ("param", U("-", P("a"))), ("param", B("*", N("2"), P("a"))), ("param", B("+", P("a"), P("b"))),
     ("param", B("**", P("a"), N("2"))), ("param", B("/", N("1"), P("a"))), ("param", B("/", P("a"), P("b"))),
@@ -45,6 +45,7 @@ ARG_SHAPES = [
     # parameter names that coincide with the names the serialiser gives to hoisted arrays (A0, A1, ...)
     ("param", B("-", P("A0"), B("*", N("2"), P("A1")))),
     ("reg", Q(0)), ("reg", B("*", N("2"), Q(0))), ("reg", B("+", Q(0), Q(1))), ("reg", B("-", Q(1), B("*", Q(0), Q(3)))),
+    ("reg", B("**", B("**", B("-", Q(0), Q(1)), N("2")), N("0.5"))),      # an even power raised to a fractional power (|q0 - q1| as it is usually written)
     ("reg", B("/", Q(1), Q(0))), ("reg", B("-", N("1"), Q(10))), ("reg", B("*", V("x"), Q(0))), ("reg", U("-", B("**", Q(0), N("2")))),
 ]
 
